@@ -11,6 +11,7 @@ import (
 	"fmt"
 	"runtime"
 	"strings"
+	"sync"
 	"testing"
 
 	"github.com/go-spring/log"
@@ -199,6 +200,73 @@ func TestRegress_C11(t *testing.T) {
 			vk.Eval()
 			if err := visit(programs[0], s, mode.fast, mode.enable); err != nil {
 				t.Fatalf("VERIF-VIOLATION C11 regress: %v", err)
+			}
+		}
+	}
+}
+
+// TestC11_Concurrent: the same sites visited from many goroutines at once in fast lookup mode
+// (the frame cache is shared state): every record must still carry its own site's position.
+func TestC11_Concurrent(t *testing.T) {
+	vk.Rule(rule)
+	if len(programs) == 0 {
+		t.Skip("no program")
+	}
+	defer log.Destroy()
+	for _, p := range programs {
+		// expected position per site id, learnt sequentially in default mode
+		if err := configure(false, true); err != nil {
+			t.Fatalf("VERIF-INCONCLUSIVE C11: %v", err)
+		}
+		want := map[int]expect{}
+		var plain []site
+		for _, s := range p.sites {
+			if s.Shape == "goroutine" || s.Shape == "nested" {
+				continue // they spawn their own goroutines; keep the fan-out bounded
+			}
+			c := &siteCtx{ctx: context.Background(), tag: tag}
+			s.Fn(c)
+			for _, e := range c.exp {
+				want[e.id] = e
+			}
+			plain = append(plain, s)
+		}
+		for _, fast := range []bool{true, false} {
+			if fast && vk.Known("C11:fast-caller-off-by-one") {
+				continue
+			}
+			if err := configure(fast, true); err != nil {
+				t.Fatalf("VERIF-INCONCLUSIVE C11: %v", err)
+			}
+			r := vk.Rec("rec")
+			const G = 8
+			rounds := 3000
+			if vk.Thorough() {
+				rounds = 40000
+			}
+			var wg sync.WaitGroup
+			for g := 0; g < G; g++ {
+				wg.Add(1)
+				go func() {
+					defer wg.Done()
+					c := &siteCtx{ctx: context.Background(), tag: tag}
+					for i := 0; i < rounds; i++ {
+						s := plain[(g*7919+i*31)%len(plain)]
+						c.exp = c.exp[:0]
+						s.Fn(c)
+					}
+				}()
+			}
+			wg.Wait()
+			items := r.Items()
+			vk.EvalN(int64(len(items)))
+			vk.Class(fmt.Sprintf("concurrent:fast=%v", fast))
+			vk.NonTrivial(fmt.Sprintf("concurrent/%s/%v", p.prefix, fast))
+			for _, it := range items {
+				e, ok := want[int(it.ID)]
+				if !ok || it.File != e.file || it.Line != e.line {
+					t.Fatalf("VERIF-VIOLATION C11: under concurrent logging (fast=%v) the record of site id=%d says %s:%d, its calling statement is at %s:%d", fast, it.ID, short(it.File), it.Line, short(e.file), e.line)
+				}
 			}
 		}
 	}
